@@ -408,6 +408,21 @@ def rule_view_shapes(prog, fixture=False):
                         adv = True
             if not adv:
                 probs.append("the skip is not advanced by one side length per side")
+            # the side length is that of the geometry the view itself is given (one side)
+            tk = strip_all(take)
+            src = tk
+            if tk is not None and tk.get("k") == "DeclRefExpr":
+                for d in fn.walk():
+                    if d.get("k") == "VarDecl" and d.get("d") == tk.get("d") and d.get("c"):
+                        src = strip_all(d["c"][0])
+            if src is not None and src.get("k") == "CXXMemberCallExpr" and (strip(src["c"][0]) or {}).get("n") == "total_sectors":
+                gobj = strip_all((strip(src["c"][0]) or {}).get("c", [None])[0])
+                vgeom = strip_all(v["c"][3])
+                if gobj is not None and vgeom is not None and gobj.get("k") == "DeclRefExpr" and vgeom.get("k") == "DeclRefExpr" \
+                        and gobj.get("d") != vgeom.get("d"):
+                    probs.append("the side length is `%s` of `%s`, but the view is described by `%s`: a side is as long "
+                                 "as the single-sided geometry says, not as the whole image" %
+                                 ("total_sectors()", gobj.get("n"), vgeom.get("n")))
             r.add("%s::NonInterleavedFile::sides" % fn.relfile(), fn.loc(v), not probs,
                   "contiguous sides" if not probs else "; ".join(probs))
     return r
